@@ -347,6 +347,8 @@ class StubsLib(StubsBase):
             return () if t.is_scalar else t.sec.shape
         if name == "ndim":
             return 0 if t.is_scalar else t.sec.ndim
+        if name == "size":
+            return 1 if t.is_scalar else A.shape_prod(t.sec.shape)
         if name == "isclose":
             return Stub(lambda c, other, atol=None: self.time_isclose(c, t, other, atol), "Time.isclose")
         if name in ("isot", "iso"):
@@ -395,12 +397,14 @@ class StubsLib(StubsBase):
             "sqrt": Stub(self.np_sqrt, "np.sqrt"),
             "exp": Stub(self.np_exp, "np.exp"),
             "floor": Stub(lambda c, x: self.np_floorceil(c, x, False), "np.floor"),
+            "trunc": Stub(self.np_trunc, "np.trunc"),
             "ceil": Stub(lambda c, x: self.np_floorceil(c, x, True), "np.ceil"),
             "round": Stub(lambda c, x, decimals=0: self.np_round(c, x), "np.round"),
             "iscomplexobj": Stub(self.np_iscomplexobj, "np.iscomplexobj"),
             "result_type": Stub(self.np_result_type, "np.result_type"),
             "allclose": Stub(self.np_allclose, "np.allclose"),
             "all": Stub(self.np_all, "np.all"),
+            "any": Stub(self.np_any, "np.any"),
             "bool_": Stub(lambda c, x: x, "np.bool_"),
             "dtype": Stub(lambda c, x: self.to_dtype(x), "np.dtype"),
             "s_": NS("np.s_", {}),
@@ -527,9 +531,21 @@ class StubsLib(StubsBase):
             raise Unsupported(f"np.stack of a symbolic-length sequence of {type(t).__name__}")
         if sq.iota is not None:
             names = {str(sq.iota)}
-            for d in t.shape:
+            dims = []
+            for k_, d in enumerate(t.shape):
                 if is_sym(d) and names & {str(v) for v in _free_vars(V.Z(d))}:
-                    raise Unsupported("np.stack: element shape depends on the element index")
+                    # the extent is written in terms of the generic index: it must be the same for every index
+                    other = ctx.fresh("iota2", "int")
+                    with ctx.scope():
+                        ctx.assume(z3.And(other >= 0, other < V.Z(sq.n)), why="second generic index")
+                        ctx.fold_point(other, sq.n)
+                        it2 = sq.item(other)
+                        it2 = it2.val if isinstance(it2, Qty) else it2
+                        same = isinstance(it2, SArr) and it2.ndim == t.ndim and ctx.is_valid(V.eq(it2.shape[k_], d))
+                    if not same:
+                        raise Unsupported("np.stack over a symbolic-length sequence: cannot show that every element has the same shape")
+                dims.append(d)
+            t = SArr(tuple(dims), t.elem, t.dtype, t.backend)
         ax = axis if axis >= 0 else axis + t.ndim + 1
         if not 0 <= ax <= t.ndim:
             raise PyExc("AxisError", "axis out of bounds")
@@ -583,6 +599,14 @@ class StubsLib(StubsBase):
         if V.is_num(x):
             return fn(x)
         raise Unsupported("np.floor/ceil operand")
+
+    def np_trunc(self, ctx, x):
+        fn = lambda v: V.trunc_real(ctx, v)
+        if isinstance(x, SArr):
+            return A.elementwise(ctx, fn, [x], x.dtype if x.dtype.kind == "f" else DType("float64"))
+        if V.is_num(x):
+            return fn(x)
+        raise Unsupported("np.trunc operand")
 
     def np_round(self, ctx, x):
         if isinstance(x, SArr):
@@ -720,6 +744,12 @@ class StubsLib(StubsBase):
     def np_all(self, ctx, x):
         if isinstance(x, SArr):
             return self.forall_elems(ctx, x, lambda e: e, "all")
+        return self.interp.truthy_sym(x, ctx)
+
+    def np_any(self, ctx, x):
+        """np.any(x) = not np.all(not x)."""
+        if isinstance(x, SArr):
+            return V.Not(self.forall_elems(ctx, x, lambda e: V.Not(e), "any"))
         return self.interp.truthy_sym(x, ctx)
 
     # -- ndarray attribute access --------------------------------------------------------
@@ -1099,6 +1129,8 @@ class StubsLib(StubsBase):
             self.frame_write_arr(target, f"augassign {type(op).__name__}", ctx)
             # operate on a snapshot of the current contents (the element function is replaced below)
             frozen = SArr(target.shape, target.elem, target.dtype, target.backend)
+            if rhs is target or (isinstance(rhs, Qty) and rhs.val is target):
+                rhs = frozen if rhs is target else Qty(frozen, rhs.dim, rhs.unit, rhs.cls)      # x op= x reads the old contents
             new = self.binop(op, Qty(frozen, cur.dim, cur.unit, cur.cls) if isinstance(cur, Qty) else frozen, rhs, ctx)
             newv = new.val if isinstance(new, Qty) else new
             if not isinstance(newv, SArr):
@@ -1111,6 +1143,24 @@ class StubsLib(StubsBase):
                 raise PyExc("ValueError", "non-broadcastable output operand")
             target.elem = newv.elem
             target.written = True
+            return True
+        if isinstance(cur, Qty):
+            # a scalar Quantity is an ndarray subclass too: q *= 2, q <<= unit change the *object* q, which every
+            # holder of that object sees (the caller's argument, a signal that stored it, signals made from it)
+            ctx.note("stub:scalar Quantity augmented assignment mutates the Quantity object in place")
+            if id(cur) in getattr(ctx, "frozen_qty", {}) and f"qty:{id(cur)}" not in ctx.sanctioned:
+                ctx.oblige(f"frame.quantity-write[augassign {type(op).__name__}]", False, "frame", {"target": ctx.frozen_qty[id(cur)]})
+            if isinstance(op, ast.LShift):
+                if not isinstance(rhs, Unit):
+                    raise Unsupported("<<= on a Quantity with a non-unit operand")
+                new = self.q_to(ctx, cur, rhs)
+            else:
+                new = self.binop(op, Qty(cur.val, cur.dim, cur.unit, cur.cls), rhs, ctx)
+            if not isinstance(new, Qty):
+                new = Qty(new, ())
+            if new.dim != cur.dim and not isinstance(op, ast.LShift):
+                raise PyExc("UnitTypeError", "in-place operation would change the unit's dimension")
+            cur.val, cur.dim, cur.unit = new.val, new.dim, new.unit if isinstance(op, ast.LShift) else cur.unit
             return True
         return super().inplace(cur, op, rhs, ctx)
 
